@@ -6,6 +6,7 @@ import Az65.Drv.Asm
 import Az65.Drv.Spec
 import Az65.Drv.Abs
 import Az65.Drv.Cli
+import Az65.Drv.Forms
 /-
 `azmodel`: line-protocol driver.  Reads `id \t mode \t args…` lines on stdin, prints
 `id \t <model/spec columns>` per line.  Imports only Model/Spec/Drv files (no Mathlib), so it
@@ -23,6 +24,7 @@ def dispatch (mode : String) (args : List String) : String :=
   | "spec" => runSpec args
   | "abs" => runAbs args
   | "cli" => runCli args
+  | "forms" => runForms args
   | _ => "BADMODE"
 
 partial def loop (h : IO.FS.Stream) (out : IO.FS.Stream) : IO Unit := do
